@@ -24,6 +24,8 @@ def execute(gi, n, X, cfg, path):
     if path == 'native':
         out = nat.run(tags, deps, unary_penalty=pen, pruning_size=pruning, use_beta=use_beta, beta=beta, nbest=nbest,
                       max_step=cfg.get('max_step', 10000000))
+        if 'error' in out:
+            return g, derivs, None, dict(error='parse_sentence drove the grammar callbacks into an error: ' + out['error'])
         info['pops'] = int(out['pops'].sum())
         info['mono'] = out['mono']
         for c in range(X.shape[0]):
